@@ -362,10 +362,14 @@ type c09Oracle struct {
 	last  map[int]time.Time // browser -> last activity of its authenticated session
 	kinds map[int]string    // browser -> step kind that logged it in
 	wasOn bool              // the expire module was deployed at the previous request
+	// mangled: the store has damaged this browser's activity stamp; such a
+	// session need not be served any more, but it must still not outlive
+	// its idle period
+	mangled map[int]bool
 }
 
 func newC09Oracle(w *World) Oracle {
-	return &c09Oracle{last: map[int]time.Time{}, kinds: map[int]string{}}
+	return &c09Oracle{last: map[int]time.Time{}, kinds: map[int]string{}, mangled: map[int]bool{}}
 }
 
 func (c *c09Oracle) Check(w *World, o *Obs) []Violation {
@@ -374,6 +378,10 @@ func (c *c09Oracle) Check(w *World, o *Obs) []Violation {
 	if !o.IsHTTP {
 		if st.Kind == "drop_session" {
 			delete(c.last, st.B)
+			delete(c.mangled, st.B)
+		}
+		if st.Kind == "mangle_stamp" {
+			c.mangled[st.B] = true
 		}
 		return nil
 	}
@@ -408,6 +416,10 @@ func (c *c09Oracle) Check(w *World, o *Obs) []Violation {
 			case gap <= E-time.Second || (gap < E && w.Cfg.WholeSecondClock):
 				verdict = "live"
 			}
+		}
+		if verdict == "live" && c.mangled[st.B] {
+			verdict = "either"
+			w.Stats.Reach["c09_live_request_with_damaged_stamp"]++
 		}
 		isProbe := st.Kind == "probe" && st.str("path") == "/probe/open" && o.Probe != nil
 		switch verdict {
@@ -462,7 +474,7 @@ func (c *c09Oracle) Check(w *World, o *Obs) []Violation {
 	}
 	// a successful login must leave an authenticated session, also when the
 	// request itself arrived on an expired session
-	if st.Kind == "login" && o.FaultFired == "" {
+	if st.Kind == "login" && o.FaultFired == "" && !c.mangled[st.B] {
 		pid := w.pidOf(st.A, st)
 		row := o.RowsBefore[pid]
 		if p := o.presented("password"); p != nil && p.Status == "valid" && row != nil && !w.rowHasFactor(row) && (!w.Cfg.hasModule("confirm") || row.Confirmed) &&
@@ -485,6 +497,7 @@ func (c *c09Oracle) Check(w *World, o *Obs) []Violation {
 			c.kind(st.B, "remember_cookie")
 			w.Stats.Reach["c09_login_by_remember_cookie"]++
 		} else if _, put := o.sessPut("uid"); put || uid == "" {
+			delete(c.mangled, st.B)
 			c.last[st.B] = o.Now
 			c.kind(st.B, st.Kind)
 			w.Stats.Reach["c09_login_"+st.Kind]++
